@@ -1,3 +1,5 @@
+* code as written: DrainThenDisconnected is violated (F4b) and, with it disabled, a deadlock is reported (F4);
+\* RetryOnDisc = DropPostOnce = RepostOnDisconnect = TRUE is the three-part candidate repair that passes
 SPECIFICATION Spec
 CONSTANTS
   Receivers = {r1, r2}
